@@ -1056,7 +1056,8 @@ func (sa *Application) canReplace(request *Allocation) bool {
 func (sa *Application) tryAllocate(headRoom *resources.Resource, allowPreemption bool, preemptionDelay time.Duration, preemptAttemptsRemaining *int, nodeIterator func() NodeIterator, fullNodeIterator func() NodeIterator, getNodeFn func(string) *Node) *AllocationResult {
 	sa.Lock()
 	defer sa.Unlock()
-	if sa.sortedRequests == nil {
+	// the scheduler works on a copy of the application list: the application can have been removed from its queue since
+	if sa.sortedRequests == nil || sa.queue == nil {
 		return nil
 	}
 	// calculate the users' headroom, includes group check which requires the applicationID
@@ -1235,8 +1236,8 @@ func (sa *Application) cancelReservations(reservations []*reservation) int {
 func (sa *Application) tryPlaceholderAllocate(nodeIterator func() NodeIterator, getNodeFn func(string) *Node) *AllocationResult {
 	sa.Lock()
 	defer sa.Unlock()
-	// nothing to do if we have no placeholders allocated
-	if resources.IsZero(sa.allocatedPlaceholder) || sa.sortedRequests == nil {
+	// nothing to do if we have no placeholders allocated, or the application has been removed from its queue
+	if resources.IsZero(sa.allocatedPlaceholder) || sa.sortedRequests == nil || sa.queue == nil {
 		return nil
 	}
 	// keep the first fits for later
@@ -1432,6 +1433,10 @@ func (sa *Application) checkHeadRooms(ask *Allocation, userHeadroom *resources.R
 func (sa *Application) tryReservedAllocate(headRoom *resources.Resource, nodeIterator func() NodeIterator) *AllocationResult {
 	sa.Lock()
 	defer sa.Unlock()
+	// the application can have been removed from its queue since the scheduler picked it
+	if sa.queue == nil {
+		return nil
+	}
 	// calculate the users' headroom, includes group check which requires the applicationID
 	userHeadroom := ugm.GetUserManager().Headroom(sa.queuePath, sa.ApplicationID, sa.user)
 
